@@ -390,3 +390,38 @@ pub(crate) enum Reflection {
     Horizontal,
     Both,
 }
+
+#[cfg(rosu_pp_verif)]
+impl GameMods {
+    /// Verification hook: the result of every crate-internal accessor, by name.
+    pub fn verif_flags(&self, lazer: bool) -> Vec<(&'static str, String)> {
+        vec![
+            ("nf", self.nf().to_string()),
+            ("ez", self.ez().to_string()),
+            ("td", self.td().to_string()),
+            ("hd", self.hd().to_string()),
+            ("hr", self.hr().to_string()),
+            ("rx", self.rx().to_string()),
+            ("fl", self.fl().to_string()),
+            ("so", self.so().to_string()),
+            ("ap", self.ap().to_string()),
+            ("bl", self.bl().to_string()),
+            ("cl", self.cl().to_string()),
+            ("invert", self.invert().to_string()),
+            ("ho", self.ho().to_string()),
+            ("tc", self.tc().to_string()),
+            ("clock_rate", format!("{:?}", self.clock_rate())),
+            ("od_ar_hp_multiplier", format!("{:?}", self.od_ar_hp_multiplier())),
+            ("hardrock_offsets", self.hardrock_offsets().to_string()),
+            ("no_slider_head_acc", self.no_slider_head_acc(lazer).to_string()),
+            ("reflection", format!("{:?}", self.reflection())),
+            ("mania_keys", format!("{:?}", self.mania_keys())),
+            ("scroll_speed", format!("{:?}", self.scroll_speed())),
+            ("random_seed", format!("{:?}", self.random_seed())),
+            ("ar", format!("{:?}", self.ar())),
+            ("cs", format!("{:?}", self.cs())),
+            ("hp", format!("{:?}", self.hp())),
+            ("od", format!("{:?}", self.od())),
+        ]
+    }
+}
